@@ -52,6 +52,13 @@ def r1(run: Run, src):
             lits.append(v.value)
     want = [Role(SHEET, 'text'), Role(COL, 'text'), Role(ROW, 1)]
     names = ['sheet title', 'column letters', '1-based row number']
+    flat = []
+    for got, txt in parts:                      # cell.coordinate is column letters followed by the row number
+        if isinstance(got, TupleR):
+            flat.extend((g_, txt) for g_ in got.items)
+        else:
+            flat.append((got, txt))
+    parts = flat
     if len(parts) != 3:
         run.bad('C19.R1', 'Excel.parse/report-key', 'key-shape', f'the report key has {len(parts)} interpolated parts, expected title, '
                                                                 f'column, row', loc=loc)
@@ -261,14 +268,57 @@ def r3(run: Run, src):
               f'fragment whose upper-case call does not start at its first character (DEC2BIN(A1), HEX2DEC(B3)) is reported as Python-like',
               fact=f'unanchored ({ex_rx.method})', loc=loc_of(fi.module.path, ex_rx.node))
     # a fragment is listed iff it matches the first and not the second
-    comps = [n for n in ast.walk(fi.node) if isinstance(n, ast.ListComp)]
+    from .common import flat_conditions
+    from ..inline import nest_guards
+    gfn = nest_guards(fi.node)
+    # the uses were found in fi.node; find them again in the nested copy by position
+    def same(n, u):
+        return isinstance(n, ast.Call) and (n.lineno, n.col_offset) == (u.node.lineno, u.node.col_offset)
+    gparents = parent_map(gfn)
+    call_n = next(n for n in ast.walk(gfn) if same(n, call_rx))
+    ex_n = next(n for n in ast.walk(gfn) if same(n, ex_rx))
+    # names bound to the list of call fragments
+    frag_names = set()
+    st_ = gparents.get(call_n)
+    if isinstance(st_, ast.Assign) and len(st_.targets) == 1 and isinstance(st_.targets[0], ast.Name):
+        frag_names.add(st_.targets[0].id)
+    if isinstance(st_, ast.NamedExpr):
+        frag_names.add(st_.target.id)
+
+    def miss_test(cond, target):
+        """True when `cond` holds exactly when the exemption pattern does not match the fragment `target`"""
+        if not (isinstance(ex_rx.subject, ast.Name) and ex_rx.subject.id == target):
+            return False
+        if isinstance(cond, ast.UnaryOp) and isinstance(cond.op, ast.Not):
+            return same(cond.operand, ex_rx)
+        if isinstance(cond, ast.Compare) and len(cond.ops) == 1 and same(cond.left, ex_rx):
+            r, op = cond.comparators[0], cond.ops[0]
+            if isinstance(r, ast.Constant) and r.value is None and isinstance(op, ast.Is):
+                return ex_rx.method in ('search', 'match', 'fullmatch')
+            if isinstance(r, ast.List) and not r.elts and isinstance(op, ast.Eq):
+                return ex_rx.method == 'findall'
+        if isinstance(cond, ast.Compare) and len(cond.ops) == 1 and isinstance(cond.left, ast.Call) and \
+                isinstance(cond.left.func, ast.Name) and cond.left.func.id == 'len' and cond.left.args and same(cond.left.args[0], ex_rx):
+            r, op = cond.comparators[0], cond.ops[0]
+            return ex_rx.method == 'findall' and isinstance(r, ast.Constant) and r.value == 0 and isinstance(op, ast.Eq)
+        return False
+    comps = [n for n in ast.walk(gfn) if isinstance(n, ast.ListComp)]
     ok = False
     if len(comps) == 1 and len(comps[0].generators) == 1 and len(comps[0].generators[0].ifs) == 1:
         g = comps[0].generators[0]
-        cond = g.ifs[0]
-        ok = isinstance(cond, ast.UnaryOp) and isinstance(cond.op, ast.Not) and cond.operand is ex_rx.node and \
-            isinstance(comps[0].elt, ast.Name) and isinstance(g.target, ast.Name) and comps[0].elt.id == g.target.id and \
-            isinstance(ex_rx.subject, ast.Name) and ex_rx.subject.id == g.target.id
+        over = g.iter is call_n or (isinstance(g.iter, ast.Name) and g.iter.id in frag_names)
+        ok = over and isinstance(comps[0].elt, ast.Name) and isinstance(g.target, ast.Name) and comps[0].elt.id == g.target.id and \
+            miss_test(g.ifs[0], g.target.id)
+        # what is returned: the selection, or an empty list when there is no call fragment at all
+        for r_ in [n for n in ast.walk(gfn) if isinstance(n, ast.Return)]:
+            if r_.value is comps[0]:
+                cs = flat_conditions(path_conditions(gfn, r_, gparents))
+                ok = ok and all(isinstance(t, ast.Name) and t.id in frag_names and pol for t, pol in cs)
+            elif isinstance(r_.value, ast.List) and not r_.value.elts:
+                cs = flat_conditions(path_conditions(gfn, r_, gparents))
+                ok = ok and any(isinstance(t, ast.Name) and t.id in frag_names and not pol for t, pol in cs)
+            else:
+                ok = False
     run.check(ok, 'C19.R3', 'suspicious/selection', 'selection',
               'the reported fragments are not exactly those call-syntax fragments that do not match the exemption pattern',
               fact='[f for f in fragments if not exemption(f)]', loc=loc)
@@ -294,27 +344,40 @@ def r3(run: Run, src):
     arg = ast.unparse(t.args[0]) if t.args else ''
     run.check(arg.endswith('.value'), 'C19.R3', 'Excel.parse/tested-value', 'tested-value', f'the test is applied to `{arg}`',
               fact='cell.value', loc=loc_of(pf.module.path, t))
-    conds = path_conditions(pf.node, t, parents)
-    cond_txt = [ast.unparse(c) for c, pol in conds]
-    extra = [c for c in cond_txt if c != arg]
+    conds = flat_conditions(path_conditions(pf.node, t, parents))
+    extra = [('' if pol else 'not ') + ast.unparse(c) for c, pol in conds if not (ast.unparse(c) == arg and pol) and
+             not (isinstance(c, ast.NamedExpr) and c.value is t)]
     run.check(not extra, 'C19.R3', 'Excel.parse/test-condition', 'test-condition',
               f'the test only runs when {extra}: some non-empty cells are never tested', fact=f'runs for every truthy cell value',
               loc=loc_of(pf.module.path, t))
-    # entered iff the list is non-empty: store guarded exactly by the walrus / the list
+    # entered iff the list is non-empty: the store is guarded by the fragment list itself (and by nothing else but the cell value)
     stores = [n for n in ast.walk(loop) if isinstance(n, ast.Assign) and isinstance(n.targets[0], ast.Subscript) and
               'suspicious' in ast.unparse(n.targets[0].value)]
     if len(stores) == 1:
         st = stores[0]
-        sc = path_conditions(pf.node, st, parents)
-        guard_ok = any(isinstance(c, ast.BoolOp) or isinstance(c, (ast.NamedExpr, ast.Name)) for c, pol in sc if pol) and \
-            ast.unparse(st.value) in ' '.join(ast.unparse(c) for c, pol in sc)
-        run.check(guard_ok, 'C19.R3', 'Excel.parse/entered-iff-non-empty', 'entry-condition',
-                  'a cell is entered in the report although its fragment list may be empty (or not entered although it is not)',
-                  fact='stored under `if <fragments>`', loc=loc_of(pf.module.path, st))
-        run.check(ast.unparse(st.value) in [ast.unparse(n.target) for n in ast.walk(loop) if isinstance(n, ast.NamedExpr)] or
-                  isinstance(st.value, ast.Name), 'C19.R3', 'Excel.parse/stored-fragments', 'stored-fragments',
-                  f'the report stores `{ast.unparse(st.value)[:40]}`', fact='the fragment list', loc=loc_of(pf.module.path, st))
+        bound = set()
+        tp = parents.get(t)
+        if isinstance(tp, ast.NamedExpr):
+            bound.add(tp.target.id)
+        if isinstance(tp, ast.Assign) and len(tp.targets) == 1 and isinstance(tp.targets[0], ast.Name):
+            bound.add(tp.targets[0].id)
+        sc = flat_conditions(path_conditions(pf.node, st, parents))
 
+        def is_list_test(c, pol):
+            if not pol:
+                return False
+            if isinstance(c, ast.Name) and c.id in bound:
+                return True
+            return isinstance(c, ast.NamedExpr) and c.value is t
+        others = [('' if pol else 'not ') + ast.unparse(c) for c, pol in sc if not is_list_test(c, pol) and
+                  not (ast.unparse(c) == arg and pol)]
+        guard_ok = any(is_list_test(c, pol) for c, pol in sc) and not others
+        run.check(guard_ok, 'C19.R3', 'Excel.parse/entered-iff-non-empty', 'entry-condition',
+                  'a cell is entered in the report although its fragment list may be empty (or not entered although it is not)'
+                  + (f' -- further conditions {others}' if others else ''),
+                  fact='stored under `if <fragments>`', loc=loc_of(pf.module.path, st))
+        run.check(isinstance(st.value, ast.Name) and st.value.id in bound, 'C19.R3', 'Excel.parse/stored-fragments', 'stored-fragments',
+                  f'the report stores `{ast.unparse(st.value)[:40]}`', fact='the fragment list', loc=loc_of(pf.module.path, st))
 
 def run(run: Run):
     src = get_source()
